@@ -53,7 +53,7 @@ class Check(object):
         inside the function.  ok: True (discharged) / False (violated)."""
         fname = func if isinstance(func, str) else func.name
         if loc is None and not isinstance(func, str):
-            loc = "%s:%s" % (os.path.relpath(func.file, "/repo"), func.line)
+            loc = "%s:%s" % (os.path.relpath(func.file, os.environ.get("HWLOC_REPO", "/repo")), func.line)
         d = {"rule": rule, "function": fname, "construct": construct, "ok": bool(ok), "detail": detail,
              "loc": loc, "nontrivial": bool(nontrivial)}
         if path:
